@@ -216,6 +216,10 @@ func init() {
 			fr.w.assertHolds(a[0].(T), str(a[1]), fr.w.curPos)
 			return nil
 		},
+		"vhRequire": func(fr *frame, a []value) value {
+			fr.w.assertKind(a[0].(T), str(a[1]), fr.w.curPos, "model")
+			return nil
+		},
 		"vhFail": func(fr *frame, a []value) value {
 			fr.w.assertHolds(fr.w.tb.False, str(a[0]), fr.w.curPos)
 			return nil
